@@ -334,6 +334,10 @@ class Sim:
         for t in op["targets"]:
             if t == "sys!":
                 self.world.system.after_init()
+            elif "." in t:
+                # one update rule alone: "<object>.<calculated attribute>"
+                name, attr = t.split(".", 1)
+                getattr(self.obj(name), "update_" + attr)()
             else:
                 self.obj(t).compute_calculated_attributes()
 
